@@ -13,7 +13,7 @@ PROPS = {
 }
 
 PROPS["C13"] = {
-    "suites": [("comp_codec", "gen_parse_cases")],
+    "suites": [("comp_codec", "gen_parse_cases"), ("comp_codec", "gen_parse_after_faults")],
     "rule": "every message kind: valid element, each attribute absent / replaced by each hostile value (wrong case, foreign vocabulary, Python-internal looking, "
             "arbitrary) and by every vocabulary constant; message text perturbed; odd attribute names (self, children, value, ...); children of every part kind, "
             "child text perturbed with hostile and number-like strings, child attributes dropped; unknown tags; plus random XML through expat; "
@@ -166,7 +166,7 @@ PROPS["C01"] = {
                     "a client that did not enable BLOBs is not sent setBLOBVector (protocol): of a BLOB property it is required to know the definition, not the updates"],
 }
 PROPS["C06"] = {
-    "suites": [("comp_sys", "gen_c06"), ("comp_sys", "gen_c06_pending"), ("comp_sys", "gen_c06_subsets")],
+    "suites": [("comp_sys", "gen_c06"), ("comp_sys", "gen_c06_pending"), ("comp_sys", "gen_c06_subsets"), ("comp_sys", "gen_c06_misaddressed")],
     "rule": "generated multi-device deployments (as for C01, every property enabled) x random (client, device, property, non-empty element subset) targets x values of the element's domain "
             "(texts with markup, quotes, non-ASCII, inner whitespace; numbers in plain decimal and sexagesimal notation with all three separators; both switch states; byte strings) x "
             "fragmentation {1024, 1, random}; before/after snapshots of EVERY driver judged by Spec.Sys.c06Holds, the writer's mirror by Spec.Sys.synced, the step by Sys.nextOk; values assigned, then traffic changing the same elements (driver, second client), then submit",
